@@ -141,6 +141,9 @@ func genC12(r *Rng, tier string, o *Out) {
 func c12Group(r *Rng, o *Out) {
 	first := r.Pick(0, 0, 1, 2, 4, 8, 12, 100)
 	nch := r.Range(1, 6)
+	if r.Chance(25) { // larger groups, sizes that are no multiple of anything convenient
+		nch = r.Pick(7, 9, 11, 13, 16, 17, 23, 31, 33)
+	}
 	opt := dastard.AbacoUnwrapOptions{RescaleRaw: r.Chance(88), ResetAfter: r.Pick(1, 2, 3, 5, 20, 20000), PulseSign: r.Pick(1, -1, 1, -1, 0, 2, -2, 5, -7)} // only the sign counts (0 counts as not negative / not positive)
 	opt.Unwrap = opt.RescaleRaw && r.Chance(80)
 	opt.Bias = r.Chance(50)
